@@ -39,7 +39,7 @@ func (c18) Meta() fw.Meta {
 
 func (c18) Cases(tier string) int {
 	if tier == "thorough" {
-		return 6000
+		return 36000
 	}
 	return 240
 }
